@@ -341,6 +341,16 @@ func genValues(maxFracs int) *rapid.Generator[[]Frac] {
 		if n > maxFracs {
 			n = maxFracs
 		}
+		if maxFracs >= 4 && coin(t, "many-fractions", 8) {
+			// a long tie: 5..16 fractions over one denominator (still exact: one denominator, tiny float error)
+			k := rapid.IntRange(5, 16).Draw(t, "nmany")
+			d := rapid.SampledFrom([]int{4, 7, 16, 100, 480, 960, 1000, 1921, 9973}).Draw(t, "dmany")
+			var vs []Frac
+			for i := 0; i < k; i++ {
+				vs = append(vs, Frac{rapid.IntRange(1, 9).Draw(t, "nm"), d})
+			}
+			return vs
+		}
 		big := -1
 		if coin(t, "bignum", 10) {
 			big = rapid.IntRange(0, n-1).Draw(t, "bigidx")
@@ -458,6 +468,16 @@ func genDoc(o DocOpts) *rapid.Generator[Doc] {
 	return rapid.Custom(func(t *rapid.T) Doc {
 		var d Doc
 		d.Insts = rapid.SliceOfN(genInst(o), 1, o.MaxInsts).Draw(t, "insts")
+		if coin(t, "long-document", 3) {
+			// a real-size piece: hundreds of instances (the earlier ones repeated with variations of length)
+			n := rapid.IntRange(70, 320).Draw(t, "long-len")
+			base := len(d.Insts)
+			for len(d.Insts) < n {
+				x := d.Insts[len(d.Insts)%base]
+				x.BPM, x.Meter, x.Key, x.Vel, x.Txt = nil, nil, nil, nil, nil
+				d.Insts = append(d.Insts, x)
+			}
+		}
 		// restatements: a later instance sets a value that is already in force (section heads do that)
 		if len(d.Insts) > 1 && coin(t, "restate", 30) {
 			var bpm *int
